@@ -41,6 +41,9 @@ type Engine struct {
 	chanInvs      map[string]*Contract
 	callbacks     map[string]*Contract
 	callsites     map[string][]*Contract // "caller|callee" -> extra preconditions
+	impls         map[string]*Contract   // "fn as iface" -> implements directive
+	footprints    map[string][]string    // opaque spec function -> heap names its body reads
+	fpBusy        map[string]bool
 	trustedList   []string
 	contractFiles []string
 
@@ -71,7 +74,7 @@ var loadPatterns = []string{
 func NewEngine(repo string) (*Engine, error) {
 	e := &Engine{repo: repo, u: NewUniverse(), contracts: map[string]*Contract{}, loopContracts: map[string]*Contract{},
 		specFuns: map[string]*Contract{}, ghostVars: map[string]Sort{}, specSorts: map[string]Sort{}, specAccessors: map[string]accInfo{},
-		chanInvs: map[string]*Contract{}, callbacks: map[string]*Contract{}, callsites: map[string][]*Contract{}, heapSortHint: map[string]Sort{},
+		chanInvs: map[string]*Contract{}, callbacks: map[string]*Contract{}, callsites: map[string][]*Contract{}, impls: map[string]*Contract{}, footprints: map[string][]string{}, fpBusy: map[string]bool{}, heapSortHint: map[string]Sort{},
 		modsMemo: map[*ssa.Function]map[string]bool{}, modsBusy: map[*ssa.Function]bool{}, globals: map[*ssa.Global]int{},
 		funcs: map[*ssa.Function]int{}, ifaceTypes: map[string]types.Type{}, cardSorts: map[Sort]bool{}, ufs: map[string]string{},
 		allFns: map[string]*ssa.Function{}, spkgs: map[string]*ssa.Package{}}
@@ -102,6 +105,40 @@ func NewEngine(repo string) (*Engine, error) {
 	}
 	for fn := range ssautil.AllFunctions(prog) {
 		e.allFns[fn.String()] = fn
+	}
+	// methods of unexported types that are never converted to an interface are not in the runtime type set
+	var addFn func(fn *ssa.Function)
+	addFn = func(fn *ssa.Function) {
+		if fn == nil {
+			return
+		}
+		if _, ok := e.allFns[fn.String()]; ok {
+			return
+		}
+		e.allFns[fn.String()] = fn
+		for _, a := range fn.AnonFuncs {
+			addFn(a)
+		}
+	}
+	for _, sp := range e.spkgs {
+		for _, m := range sp.Members {
+			switch x := m.(type) {
+			case *ssa.Function:
+				addFn(x)
+			case *ssa.Type:
+				for _, t := range []types.Type{x.Type(), types.NewPointer(x.Type())} {
+					ms := prog.MethodSets.MethodSet(t)
+					for i := 0; i < ms.Len(); i++ {
+						addFn(prog.MethodValue(ms.At(i)))
+					}
+				}
+			}
+		}
+	}
+	for _, fn := range e.allFns {
+		for _, a := range fn.AnonFuncs {
+			addFn(a)
+		}
 	}
 	return e, nil
 }
@@ -217,6 +254,19 @@ func (e *Engine) LoadContracts(specDir string) error {
 				return err
 			}
 			e.callsites[caller+"|"+callee] = append(e.callsites[caller+"|"+callee], c)
+		case "implements":
+			fk, err := e.resolveFuncName(c)
+			if err != nil {
+				return err
+			}
+			ic := *c
+			ic.Name = c.As
+			ik, err := e.resolveFuncName(&ic)
+			if err != nil {
+				return err
+			}
+			c.Name, c.As = fk, ik
+			e.impls[unitNameS(fk)+" as "+unitNameS(ik)] = c
 		case "assume-call":
 			key, err := e.resolveCallbackName(c)
 			if err != nil {
